@@ -132,9 +132,12 @@ def main(tier, seed):
             got = sort_attrs([norm_line(l) for l in api if not l.startswith('NS ')])
             exp, both = girgen.both_dimensions(exp, got)
             exp, got = sort_attrs(exp), sort_attrs(got)
-            if both:
+            if [h_ for h_ in both if h_['finding'] == 'K1']:
                 ck.failing_input('an array with a length parameter and a fixed size: the fixed size is not in the typelib', dict(gir=xml),
-                                 detail=both[:3], fid='C06-K1-array-with-length-and-fixed-size')
+                                 detail=[h_ for h_ in both if h_['finding'] == 'K1'][:3], fid='C06-K1-array-with-length-and-fixed-size')
+            if [h_ for h_ in both if h_['finding'] == 'K2']:
+                ck.failing_input('an array with a fixed size of 65536 or more: the typelib holds the size modulo 65536', dict(gir=xml),
+                                 detail=[h_ for h_ in both if h_['finding'] == 'K2'][:3], fid='C06-K2-fixed-size-beyond-16-bits')
             d = first_diff(exp, got)
             if d:
                 ck.failing_input('the typelib does not describe the GIR it was compiled from', dict(gir=xml),
